@@ -768,4 +768,86 @@ Proof.
   - intros n s' d e bug Hn Hcr Hcl Hsh H. eapply recv_reset_at_delivers; eauto.
 Qed.
 
+(** * liveness of Peek *)
+Lemma dequeue_cov s s1 b : RSInv S s -> crest s = 0 -> dequeue s = (s1, b) ->
+  forall x, cov (queue (sorter s)) x -> rpos s + len (cur s1) <= x -> cov (queue (sorter s1)) x.
+Proof.
+  intros R Hc H x Hx Hge. pose proof (v_pos _ _ R) as P. rewrite Hc in P.
+  unfold dequeue in H.
+  pose proof (Inv_fire_done S _ (curDone s) (v_inv _ _ R)) as I0.
+  destruct (Pop (fire_done (sorter s) (curDone s))) as [[q1 [[off d] cb]] bb] eqn:EP.
+  destruct (sorter_refines_pop S _ _ _ _ _ _ I0 EP) as (_&_&_&_&Hrp&Hcov). simpl in Hrp, Hcov.
+  inversion H; subst; simpl in *. apply Hcov. split; auto. lia.
+Qed.
+
+Lemma peekBody_live s1 n : RSInv S s1 -> 0 < n -> 0 < crest s1 ->
+  (forall x, rpos s1 <= x < rpos s1 + n -> x < rpos s1 + crest s1 \/ cov (queue (sorter s1)) x) ->
+  exists d, peekBody s1 n = (s1, d, ENil, false).
+Proof.
+  intros R Hn Hc Hall. unfold peekBody.
+  assert (Hne : cur s1 <> []) by (unfold crest in Hc; destruct (cur s1); [lia|discriminate]).
+  pose proof (crest_nonnil _ Hne) as Hcr.
+  assert (E1 : (match cur s1 with [] => false | _ => true end) = true) by (destruct (cur s1); [congruence|reflexivity]).
+  rewrite E1. destruct (Z.ltb_spec (rpif s1) (len (cur s1))); [|lia]. cbn [andb]. cbv zeta.
+  rewrite <- Hcr. destruct (Z.leb_spec n (crest s1)); [eauto|].
+  pose proof (v_pos _ _ R) as P.
+  destruct (Peek_complete S (sorter s1) (n - crest s1) (v_inv _ _ R) ltac:(lia)) as (d1&Hd1).
+  { intros x Hx. rewrite P in Hx. destruct (Hall x ltac:(lia)); [lia|auto]. }
+  rewrite <- P. rewrite Hd1. eauto.
+Qed.
+
+(** Peek does not park when an error is latched, and returns all n bytes when they are there *)
+Theorem Peek_live s n s' d e bug : RSInv S s -> 0 < n -> PeekS s n = (s', d, e, bug) ->
+  (latched s = true -> e <> EWouldBlock) /\
+  (latched s = false ->
+   (forall x, rpos s <= x < rpos s + n -> x < rpos s + crest s \/ cov (queue (sorter s)) x) ->
+   e = ENil /\ len d = n).
+Proof.
+  intros R Hn H.
+  assert (Hlen : e = ENil -> len d = n).
+  { assert (Hn0 : 0 <= n) by lia. destruct (Peek_spec_stream S _ _ _ _ _ _ R Hn0 H) as (_&_&_&_&_&A&_). exact A. }
+  unfold PeekS in H. destruct (Z.leb_spec n 0); [lia|]. rewrite peekImpl_unfold in H. split.
+  - intros Hl He. subst e.
+    destruct (curIsLast s && _); [inversion H|].
+    destruct (cancelledLocally s || remoteEffective s) eqn:Ec.
+    { inversion H. eapply cancel_rerr_not_block; eauto. }
+    destruct (shutdown s) eqn:Es; [inversion H|].
+    unfold latched in Hl. rewrite Es in Hl. simpl in Hl. congruence.
+  - intros Hl Hall.
+    assert (Ha : available s).
+    { destruct (Hall (rpos s) ltac:(lia)) as [Hx|Hx]; [left; lia|right; auto]. }
+    rewrite (available_not_eof s R Ha) in H.
+    unfold latched in Hl. apply orb_false_elim in Hl as [Hl Hre]. apply orb_false_elim in Hl as [Hsh Hcl].
+    rewrite Hcl, Hre, Hsh in H. cbn [orb] in H.
+    assert (He : e = ENil); [|split; auto].
+    destruct ((match cur s with [] => true | _ => false end) || (len (cur s) <=? rpif s)) eqn:Edq.
+    + assert (Hc0 : crest s = 0).
+      { apply crest_zero with (S := S); auto. apply orb_prop in Edq. destruct Edq as [E|E]; [left; apply isnil_true; auto|right; apply Z.leb_le; auto]. }
+      destruct (dequeue s) as [s2 b2] eqn:Ed.
+      destruct (dequeue_spec S _ _ _ R Hc0 Ed) as (->&R1&D1&D2&D3&_).
+      destruct (dequeue_more _ _ _ R Hc0 Ed) as (M1&_).
+      assert (Hne : cur s2 <> []) by (apply M1; destruct Ha; [lia|auto]).
+      destruct (peekBody_live s2 n R1 Hn) as (d2&Hd2).
+      * rewrite D3. apply len_pos_nonnil; auto.
+      * intros x Hx. rewrite D1 in *. rewrite D3.
+        destruct (Z.lt_ge_cases x (rpos s + len (cur s2))); [left; auto|right].
+        destruct (Hall x Hx) as [Hy|Hy]; [lia|]. exact (dequeue_cov _ _ _ R Hc0 Ed x Hy H1).
+      * rewrite Hd2 in H. inversion H; auto.
+    + apply orb_false_elim in Edq. destruct Edq as [E1 E2]. apply isnil_false in E1. apply Z.leb_gt in E2.
+      destruct (peekBody_live s n R Hn) as (d2&Hd2); auto.
+      * rewrite (crest_nonnil _ E1). lia.
+      * rewrite Hd2 in H. inversion H; auto.
+Qed.
+
+Theorem recv_peek_live w ops r n s' d e bug : 0 <= w < MaxBC -> Forall rvalid ops ->
+  rsrun S (rrun_init w) ops = Some r -> 0 < n -> PeekS (rr_st r) n = (s', d, e, bug) ->
+  (latched (rr_st r) = true -> e <> EWouldBlock) /\
+  (latched (rr_st r) = false ->
+   (forall x, rpos (rr_st r) <= x < rpos (rr_st r) + n ->
+      x < rpos (rr_st r) + crest (rr_st r) \/ cov (queue (sorter (rr_st r))) x) ->
+   e = ENil /\ len d = n).
+Proof.
+  intros Hw Hv Hs Hn HP. destruct (reach_both w ops r Hw Hv Hs) as (R&_). eapply Peek_live; eauto.
+Qed.
+
 End WithS.
